@@ -475,7 +475,7 @@ def gen_trace(seed: int, tier: str) -> dict:
     r = S("config")
     n = r.randint(10, 35) if tier == "quick" else r.randint(20, 90)
     events, sw = common.gen_history(seed, fault_rate=common.fault_arm(seed), n_events=n, families=["c17"], always=("c17",), ckpt=0.05, reopen=0.05,
-                                    restart=0.03, observe=0.02, jump=0.0, fork=0.0, warmup=False)
+                                    restart=0.03, observe=0.02, jump=0.0, fork=0.03, warmup=False)
     pre = [{"op": "add_slide", "layout": 6, "dt": 1.0}]
     return {"property": ID, "seed": seed, "tier": tier, "config": {"max_slides": 4},
             "start": [{"deck": S("start").choice(["default", "default", "f-shp-groupshape.pptx", "f-shp-connector-props.pptx", "f-shp-common-props.pptx", "f-shp-shapes.pptx"])}],
